@@ -19,6 +19,9 @@ CHECKS = {
  'C10': ('treedec', 'TLC enumerates all graphs (MC_TreeDec; R3: DP treewidth = min over all elimination orders) -> tree_decomposition x 3 methods, min_fill, minor_min_width, quickbb -> TLC judges validity and optimality by definition (Trace_TreeDec)',
          'Exhaustive over every labelled simple graph on <=5 (quick) / <=6 (thorough) vertices in two vertex insertion orders, structured graphs (cliques, paths, cycles, stars, grids) and seeded graphs on 7-9 vertices; TLC decides tree-ness, coverage, running intersection and computes the treewidth by subset DP, itself cross-checked against all elimination orders (R3).',
          'Trusted: TLC, TreeDec.tla (definition of tree decomposition, treewidth DP), the driver that converts the returned dict of frozensets into bags/edges. Empty graph: only validity (width conventions differ).', 'DESIGN.md#c10'),
+ 'C12': ('builder', 'TLC builder machine (MC_Builder) generates construction schedules (-simulate; R3 Confluent) -> replayed on the real API on re-ordered / renamed / value-permuted presentations with explicit or implicit ids -> sum_products -> TLC judge (Trace_Present): observed = meaning(presented) and, model-level, meaning(presented) = renamed/permuted meaning(original)',
+         '280 (quick) / 14 000 (thorough) TLC-generated construction schedules over presentations of seeded grammars: order of add_node/add_edge/add_rule/add_domain/add_factor/add_edge_label calls, rule/node/edge order, label renaming, domain-value permutation with factor axes, explicit vs implicit ids; 4 semirings, 3 methods, 2 dtypes; every result must equal the exact meaning of the presented grammar, which TLC proves to be the permuted meaning of the original.',
+         'Trusted: TLC, Semantics.tla, the presentation generator (its correctness is itself checked by the model-level theorem: a wrong permutation makes the check fail as machinery error, exit 2). Non-recursive targets; gradients / viterbi weights under re-presentation are exercised through the C03/C04 oracles.', 'DESIGN.md#c12'),
  'C14': ('jsonfmt', 'seeded abstract grammars (mixed explicit/implicit ids, finite/range domains, dense + diagonal/expanded patterned weights, INF entries, unused labels) -> fgg_to_json / json.dumps / json_to_fgg / second trip and malformed variants on the real code -> TLC judge (Trace_Json): JSON object = abstract grammar up to renaming of implicit ids (isomorphism search per rule), round trip, verbatim second trip, ValueError exactly on out-of-range numbers',
          'Each JSON object the library writes is itself handed to TLC and compared with the abstract grammar: label tables, types, start, rules of every left-hand side in order up to isomorphism with explicit ids preserved, domains, factor weights; the object read back is compared the same way; every attachment/external position is overwritten with -n-1,-n,-1,0,n-1,n,n+1.',
          'Trusted: TLC, JsonFmt.tla, the projection of weight lists to [shape, flat] integers. json_to_weights of patterned specifications (physical/expand/vaxes/default) is covered by the Axes denotation in C06, not here.', 'DESIGN.md#c14'),
@@ -28,6 +31,9 @@ CHECKS = {
  'C16': ('graphs-machine', 'TLC explores the Graphs heap machine (MC_Graph, MC_HRG: every mutator incl. failing calls; R3 invariants) and dumps every transition -> replayed on real Graph/HRG/FGG objects -> TLC trace judge (Trace_Graphs) checks well-formedness preserved, failure atomicity, copy equality/independence, == soundness',
          'Exhaustive TRANSITION coverage of the bounded heap machine to call depth 3 (quick) / 4 (thorough) over a universe with id/label/type clashes, plus -simulate behaviours of depth 10-14; every observed call is judged by TLC on projections taken through public accessors only; the descriptive model is compared for drift (non-gating) and itself model-checked against the clauses (R3).',
          'Trusted: TLC, Graphs.tla normative predicates, the projection code in harness/graphsdrv.py. Universe is small (3-4 node values, 5-6 edge labels, 2 edge ids, 5 rule right-hand sides). A rule sharing its right-hand side Graph with the caller is a recorded finding (known_findings.json).', 'DESIGN.md#c16'),
+ 'C17': ('conjoin', 'seeded pairs of HRGs over shared rule skeletons (several rules per skeleton, name clashes, shared/duplicated terminal edges, g with g, implicit ids, genuine conflicts) -> conjoin_hrgs on the real grammars -> TLC judge (Trace_Conjoin): one rule per conjoinable pair with the paired nonterminal edges and the terminal edges of both, names injective and fresh, derivation counts = paired-derivation counts to depth 3, ValueError exactly on terminal conflicts',
+         'Relational judgement of the whole conjoined grammar against Conjoin.tla for 240 (quick) / 3000 (thorough) grammar pairs in 7 modes; the naming of nonterminal pairs is a hint that TLC verifies (or re-derives by search for <=4 pairs); the one-to-one correspondence of derivations is checked through counts of derivations of depth <=3 on the observed grammar.',
+         'Trusted: TLC, Conjoin.tla, the projection of the result (node/edge ids). One node label, nonterminals of arity 0/1, <=3 skeletons.', 'DESIGN.md#c17'),
  'C19': ('scc', 'TLC enumerates all digraphs (MC_Scc) -> fggs.utils.scc / nonterminal_graph -> TLC judges recorded results against SCCs-by-definition (Trace_Scc)',
          'Exhaustive over every digraph on <=3 (quick) / <=4 (thorough) vertices incl. self-loops, with all adjacency and vertex insertion orders, plus seeded digraphs to 8 vertices and seeded HRGs; each observed result is judged by TLC against the definitional components, partition and dependency order.',
          'Trusted: TLC, the 60-line definitional spec Scc.tla, the driver that builds the adjacency dict. Bounded by vertex count.', 'DESIGN.md#c19'),
